@@ -14,10 +14,11 @@ RULE = ("styled strings of 0-80 characters whose non-blank characters are UNIQUE
         "2..200 weighted to 2..12; every justify x overflow x no_wrap. A free-repetition share runs the aggregate "
         "oracles only. Non-trivial: wrapping produced >=2 lines and >=1 span crosses a line break; distinct by "
         "(string, spans, width, modes).")
-ASSUMPTIONS = ["blank characters' styles are not compared (padding and justification spaces are new characters)",
+ASSUMPTIONS = ["blanks at the edges of an output line are not compared (padding and justification spaces are new characters); "
+               "blanks INSIDE a line, between characters that were neighbours-but-for-blanks in the source, are",
                "an ellipsis added by overflow='ellipsis' is a new character",
                "indentation of a word = the leading whitespace of its source line when it is the first word there"]
-REQUIRED = ["mon.fold_sequence", "mon.line_fits", "mon.char_style", "mon.word_break_rule", "mon.line_renders"]
+REQUIRED = ["mon.fold_sequence", "mon.line_fits", "mon.char_style", "mon.blank_run_style", "mon.wrapped_by_the_console", "mon.word_break_rule", "mon.line_renders"]
 MIN_NONTRIVIAL = {"quick": 2000, "thorough": 100000}
 
 JUSTIFY = ["default", "left", "center", "right", "full"]
